@@ -630,6 +630,9 @@ class ElementwiseUnary(Expression):
 
     __slots__ = ("vector", "op")
 
+    # array - sin(x) must reach __rsub__ as a whole, not be broadcast by NumPy
+    __array_ufunc__ = None
+
     # Mapping from op name to numpy function
     _NUMPY_FUNCS = {
         "sin": np.sin,
